@@ -440,8 +440,7 @@ Theorem inode_fail_iff_lemma c t :
   c_cancel c = NoCancel -> c_fatal c = false -> no_xpanic c -> c_paths c = [] -> tree_quiet c t = true ->
   (0 < c_max_inodes c)%Z ->
   ((exists st, fs_result c t = WOk st Continue) <-> (Z.of_nat (visits_needed c t) <= c_max_inodes c)%Z) /\
-  ((c_max_inodes c < Z.of_nat (visits_needed c t))%Z ->
-     (exists st, fs_result c t = WOk st (Abort AbInodes)) \/ (exists st, fs_result c t = WPanic st PcSlice)).
+  ((c_max_inodes c < Z.of_nat (visits_needed c t))%Z -> exists st, fs_result c t = WOk st (Abort AbInodes)).
 Proof.
   intros NC F NP P Q M. unfold fs_result, visits_needed. rewrite run_fs_root by exact P.
   destruct (node_stat_fails t).
@@ -459,8 +458,8 @@ Proof.
     + apply Z.leb_le in E. destruct B as (st' & X & _). rewrite X in A. cbn [agrees] in A.
       split; [split; [intros _; exact E|intros _; eexists; exact A]|]. intros Y. lia.
     + apply Z.leb_gt in E. destruct B as (st' & X). rewrite X in A. cbn [agrees] in A. split.
-      * split; [|intros Y; lia]. intros [st H]. rewrite H in A. destruct A as [[ms A]|[_ [ms A]]]; discriminate.
-      * intros _. destruct A as [[ms A]|[_ [ms A]]]; [left|right]; eexists; exact A.
+      * split; [|intros Y; lia]. intros [st H]. rewrite H in A. destruct A as [ms A]; discriminate.
+      * intros _. destruct A as [ms A]. eexists; exact A.
 Qed.
 
 (* cancellation by the k-th visit hook, no inode limit *)
@@ -508,8 +507,7 @@ Theorem cancel_reports_failure_lemma c k t :
   c_cancel c = CancelAtVisit k -> (c_max_inodes c <= 0)%Z -> c_fatal c = false -> no_xpanic c -> c_paths c = [] ->
   tree_quiet c t = true ->
   ((exists st, fs_result c t = WOk st Continue) <-> (visits_needed c t < k)%nat) /\
-  ((k <= visits_needed c t)%nat ->
-     (exists st, fs_result c t = WOk st (Abort AbCtx)) \/ (exists st, fs_result c t = WPanic st PcSlice)).
+  ((k <= visits_needed c t)%nat -> exists st, fs_result c t = WOk st (Abort AbCtx)).
 Proof.
   intros CK NI F NP P Q. unfold fs_result, visits_needed. rewrite run_fs_root by exact P.
   destruct (node_stat_fails t).
@@ -518,7 +516,7 @@ Proof.
     { apply andb_false_iff. left. apply Z.ltb_ge. exact NI. }
     rewrite L. unfold cancelled. rewrite CK, F. cbn [s_nvisit visit inc_inodes init_state].
     destruct (k <=? 1)%nat eqn:E.
-    + apply Nat.leb_le in E. split; [split; [intros [st H]; discriminate|intros X; lia]|]. intros _. left. eexists; reflexivity.
+    + apply Nat.leb_le in E. split; [split; [intros [st H]; discriminate|intros X; lia]|]. intros _. eexists; reflexivity.
     + apply Nat.leb_gt in E. split; [split; [intros _; exact E|intros _; eexists; reflexivity]|]. intros X. lia.
   - pose proof (quiet_all c _ F (schedule_quiet_or_fserr c t Q [] [DOT])) as QA.
     pose proof (exec_budget_cancel c k CK NI NP _ init_state QA) as B. cbn [s_nvisit init_state Nat.add] in B.
@@ -529,25 +527,7 @@ Proof.
     + apply Nat.ltb_lt in E. destruct B as (st' & X & _). rewrite X in A. cbn [agrees] in A.
       split; [split; [intros _; exact E|intros _; eexists; exact A]|]. intros Y. lia.
     + apply Nat.ltb_ge in E. destruct B as (st' & X). rewrite X in A. cbn [agrees] in A. split.
-      * split; [|intros Y; lia]. intros [st H]. rewrite H in A. destruct A as [[ms A]|[_ [ms A]]]; discriminate.
-      * intros _. destruct A as [[ms A]|[_ [ms A]]]; [left|right]; eexists; exact A.
+      * split; [|intros Y; lia]. intros [st H]. rewrite H in A. destruct A as [ms A]; discriminate.
+      * intros _. destruct A as [ms A]. eexists; exact A.
 Qed.
 
-(* ------------------------------------------------------------------ refutation witnesses *)
-Definition c_gi_limit : cfg := with_limits (with_gitignore base_cfg pat_a) 1 0 false NoCancel.
-Definition c_gi_cancel : cfg := with_limits (with_gitignore base_cfg pat_a) 0 0 false (CancelAtVisit 0).
-Definition t_one_dir : node := Dc DOT [Dc nA []].
-
-Lemma gitignore_abort_panics_lemma :
-  exists c t, wf_tree t = true /\ fault_free t = true /\ c_paths c = [] /\ (forall e p, c_extract c e p <> XPanic) /\
-    exists st, fs_result c t = WPanic st PcSlice.
-Proof.
-  exists c_gi_limit, t_one_dir. repeat split; try reflexivity; [intros e p; discriminate|]. eexists. vm_compute. reflexivity.
-Qed.
-
-Lemma gitignore_cancel_panics_lemma :
-  exists c t, wf_tree t = true /\ fault_free t = true /\ c_paths c = [] /\ c_max_inodes c = 0%Z /\
-    exists st, fs_result c t = WPanic st PcSlice.
-Proof.
-  exists c_gi_cancel, t_one_dir. repeat split; try reflexivity. eexists. vm_compute. reflexivity.
-Qed.
